@@ -33,7 +33,9 @@ NOT_PROVED = [
     "that `sample()`, `pdf`, `mean`, `var` read nothing but the record and the global generator is true of the model by "
     "construction of its types; for the Rust code it is checked by the twin comparison and by the draws taken with "
     "unrelated objects being created, mutated and sampled around them",
-    "NaN parameters (several constructors accept NaN because `NaN <= 0.` is false) are out of scope",
+    "NaN parameters are outside the theorems (linear order); whether NaN belongs to a domain is not decided: for NaN the check "
+    "only demands that setters / updates accept exactly what the constructor accepts and that the object equals its twin "
+    "(tie at Float, where every guard is written in the comparison form of the source, + twin oracle)",
 ]
 TRUSTED = [
     "`#[derive(Debug)]` of the 13 structs prints every field (used to read the private parameters and the cached sub-samplers)",
@@ -41,7 +43,10 @@ TRUSTED = [
     "Model/DistPdf.lean (C02) and Model/Samplers.lean (C03) for the observed values at Float; Model/Rng.lean for alea",
 ]
 ASSUMPTIONS = [
-    "parameters are not NaN (theorems: linear order; generator: never produces NaN)",
+    "theorems: parameters are not NaN (linear order).  NaN and -NaN do occur in the generated histories (~5% of the f64 "
+    "values of setters, update slices and re-construction, plus a corpus line per distribution) and are covered by the "
+    "bit-for-bit tie and by twin consistency only: accepted iff the Rust constructor accepts the resulting parameter list; "
+    "draws are not taken while a record holds a NaN (several rejection samplers do not terminate on NaN)",
     "`usize` is 64 bits (the casts `as usize`/`as u64` share one model)",
     "a setter index / argument type that does not exist in the Rust API is not a call (model: identity)",
 ]
@@ -104,8 +109,20 @@ def cast_slice(kind, ps):
     return out
 
 
+def fhex(x):
+    """like f2h, but a NaN travels as an explicit bit pattern so that its sign is part of the request"""
+    x = float(x)
+    if x != x:
+        return "fff8000000000000" if math.copysign(1.0, x) < 0 else "7ff8000000000000"
+    return f2h(x)
+
+
+def isnan(v):
+    return isinstance(v, float) and v != v
+
+
 def show_arg(ty, v):
-    return f2h(v) if ty == "f" else str(int(v))
+    return fhex(v) if ty == "f" else str(int(v))
 
 
 def same(ty, a, b):
@@ -248,6 +265,17 @@ def gen_history(rng, kind, cover, corpus_steps=None):
             args[i] = gen_value(rng, cls[i], cur, i, False)
         return args
 
+    def nanify(vals, types):
+        """occasionally replace one f64 of a value list by NaN or -NaN"""
+        idx = [i for i, t in enumerate(types) if t == "f"]
+        if idx and vals and rng.chance(0.05):
+            i = rng.choice([j for j in idx if j < len(vals)] or [None])
+            if i is not None:
+                vals = list(vals)
+                vals[i] = rng.choice([float("nan"), -float("nan")])
+                count("nan-value")
+        return vals
+
     nmut = rng.randint(1, 20)
     # first constructor call (sometimes a panicking one first)
     if rng.chance(0.08):
@@ -277,6 +305,9 @@ def gen_history(rng, kind, cover, corpus_steps=None):
                 if cls[i] in ("real", "nat"):
                     valid = True
                 v = gen_value(rng, cls[i], cur, i, valid)
+            if sig[i] == "f" and rng.chance(0.05):
+                v = rng.choice([float("nan"), -float("nan")])
+                count("nan-value")
             steps.append(("set", i, v))
             cand = list(cur)
             cand[i] = v
@@ -297,6 +328,7 @@ def gen_history(rng, kind, cover, corpus_steps=None):
                 ps = [1e30]
             if kind == "binomial" and rng.chance(0.1):
                 ps[0] = rng.choice([-1.0, -0.5, 0.75, float("-inf")])
+            ps = nanify(ps, "f" * len(ps))
             shape = rng.random()
             if shape < 0.06:
                 ps = ps[:rng.randint(0, len(ps) - 1)]
@@ -328,7 +360,7 @@ def gen_history(rng, kind, cover, corpus_steps=None):
                 else:
                     cur = list(a)  # only a guess of the state: later values are still fine, just less targeted
         else:  # re-construction
-            a = new_args(valid)
+            a = nanify(new_args(valid), sig)
             steps.append(("new", a))
             count("reconstruct-valid" if dom(a) else "reconstruct-invalid")
             if dom(a):
@@ -353,8 +385,11 @@ def render(kind, seed, probes, steps):
         elif s[0] == "set":
             toks += ["set", str(s[1]), show_arg(sig[s[1]], s[2])]
         else:
-            toks += ["upd", str(len(s[1]))] + [f2h(x) for x in s[1]]
+            toks += ["upd", str(len(s[1]))] + [fhex(x) for x in s[1]]
     return " ".join(toks)
+
+
+NAN = float("nan")
 
 
 def corpus():
@@ -379,6 +414,18 @@ def corpus():
         # observations that panic (i64 overflow in pmf / var / sample; Gamma::new(0, 1) inside T::sample): `X` on both sides
         render("discreteuniform", 5, [0, -9 * 10 ** 18, 9 * 10 ** 18], [("new", [-9 * 10 ** 18, 9 * 10 ** 18]), ("set", 0, 9 * 10 ** 18 - 3), ("upd", [-1e30, 1e30]), ("set", 1, 5)]),
         render("t", 5, P, [("new", [5e-324]), ("set", 0, 1e-300), ("upd", [float("inf")])]),
+        # NaN / -NaN through constructor, every f64 setter and the bulk update of every kind (rule: setters and updates
+        # accept exactly what the constructor accepts; seeded change C18a: Bernoulli::set_p written as `p < 0. || p > 1.`)
+    ] + [
+        render(kind, 9, PI if kind in DISCRETE else P,
+               [("new", first)]
+               + [st for i, t in enumerate(SPEC[kind][0]) if t == "f" for st in (("set", i, NAN), ("set", i, first[i]), ("set", i, -NAN))]
+               + [("upd", [NAN if j == i else float(v) for j, v in enumerate(first)]) for i in range(len(first))]
+               + [("upd", [-NAN] * len(first)), ("new", [NAN if t == "f" else v for t, v in zip(SPEC[kind][0], first)]), ("upd", [float(v) for v in first])])
+        for kind, first in (("bernoulli", [0.5]), ("beta", [2.0, 3.0]), ("binomial", [10, 0.5]), ("chisquared", [3]),
+                            ("discreteuniform", [0, 5]), ("exponential", [1.5]), ("gamma", [2.0, 3.0]), ("gumbel", [0.5, 2.0]),
+                            ("normal", [1.0, 2.0]), ("pareto", [2.0, 3.0]), ("poisson", [4.0]), ("t", [3.0]), ("uniform", [0.0, 1.0]))
+    ] + [
         render("bernoulli", 3, PI, [("new", [0.5]), ("set", 0, 1.0 + 2.0 ** -52), ("set", 0, 1.0), ("upd", [0.0]), ("upd", [0.25])]),
     ]
 
@@ -454,10 +501,11 @@ def parse_steps(reply):
     for x in toks + ["|"]:
         if x == "|":
             flag = cur[0] == "1"
-            if cur[1:] == ["-"]:
-                res.append((flag, None))
+            c = cur[2]  # cur[1] == "C"
+            if cur[3:] == ["-"]:
+                res.append((flag, c, None))
             else:
-                res.append((flag, split_sections(cur[1:])))
+                res.append((flag, c, split_sections(cur[3:])))
             cur = []
         else:
             cur.append(x)
@@ -497,9 +545,16 @@ def oracle(lines, impl):
         def fail(s, what, msg, expected=None):
             fails.append(Failure(idx, "%s:%s:%s" % (kind, opname(kind, s), what), "step %d (%s): %s" % (k, " ".join(map(str, s)), msg), expected))
 
-        for k, (s, (panicked, obs)) in enumerate(zip(steps, res)):
+        for k, (s, (panicked, ctor, obs)) in enumerate(zip(steps, res)):
             if cur is None and s[0] != "new":
                 continue
+            # ---- "alike": a setter / bulk update accepts a value iff the constructor accepts the resulting
+            # parameter list (decided by the Rust constructor itself; this is the only rule applied to NaN)
+            if ctor in ("0", "1") and (ctor == "1") == panicked:
+                fail(s, "validation", ("the call panicked but the constructor accepts the resulting parameter list" if panicked else
+                                       "the call was accepted but the constructor rejects the resulting parameter list (no fresh twin exists)")
+                     + "; current parameters %r" % (cur,), "panic" if not panicked else "no panic")
+                break
             # ---- what the call must do
             judge = True
             partial = None
@@ -520,8 +575,13 @@ def oracle(lines, impl):
                     else:
                         c2 = cast_slice(kind, s[1])
                         partial = (list(cur), c2 + list(cur)[len(c2):])
-            if judge:
+            nan_involved = cand is not None and any(isnan(v) for v in cand)
+            if judge and nan_involved:
+                # whether NaN is in the domain is not decided here: the constructor is the reference
+                ok = (ctor == "1") if ctor in ("0", "1") else not panicked
+            elif judge:
                 ok = dom(cand)
+            if judge:
                 if ok and panicked:
                     fail(s, "validation", "valid parameters %r were rejected by a panic (current parameters %r)" % (cand, cur), "no panic")
                     break
@@ -537,7 +597,7 @@ def oracle(lines, impl):
             have = []
             for ty, tok in zip(sig, obs["S"][:len(sig)]):
                 have.append(h2f(tok) if ty == "f" else int(tok))
-            if not dom(have):
+            if not any(isnan(v) for v in have) and not dom(have):
                 fail(s, "domain", "the object holds out-of-domain parameters %r" % (have,), "in-domain parameters")
                 break
             if judge and not panicked:
